@@ -24,7 +24,11 @@ EXHAUSTIVE = {"quick": False, "thorough": False}
 
 
 GLUE_LINES = ["10 IF A THEN 10 ELSE 20", "20 IF X>1 THEN PRINT 20000+20000 ELSE PRINT 0", "30 A=B EQV 5 EQV C", "40 IF A THEN B=1 ELSE B=2",
-              "50 IF A=2 THEN PRINT 7 ELSE PRINT 8", "60 PRINT 3 EQV 4", "70 IF Q THEN A%=30000+2767 ELSE A%=1", "80 IF A THEN PRINT 1 END"]
+              "50 IF A=2 THEN PRINT 7 ELSE PRINT 8", "60 PRINT 3 EQV 4", "70 IF Q THEN A%=30000+2767 ELSE A%=1", "80 IF A THEN PRINT 1 END",
+              # a reserved word followed by a name that, run together with it, spells another reserved word across the seam
+              # (FOR+EM.. and OR+EM.. contain REM, GO+TOTAL contains GOTO, O+NEXT..): the leftmost word still wins
+              "90 FOR EM=1 TO 3:PRINT EM;:NEXT EM", "100 EM=5:IF EM=1 OR EM=5 THEN PRINT 1", "110 A=B XOR EMU", "120 PRINT A OR EMPTY",
+              "130 FOR EMIT=2 TO 3:NEXT", "140 IF A THEN B=C OR EM ELSE B=2", "150 FOR I=1 TO N:NEXT", "160 GO TO TALLY"]
 
 
 def segments(line):
